@@ -87,21 +87,39 @@ fn note_drop(k: Kind, id: u64) {
 
 /// Node value: `prio` is what priority-first search orders by (ties are
 /// possible on purpose), `id` identifies the instance family for the registry.
-#[derive(Debug)]
 pub struct NVal {
     pub prio: u32,
     pub id: u64,
+    /// Interior-mutable part of the value, as in the crate's own Dijkstra example (a `Cell`
+    /// distance the search closure relaxes while the node sits in the priority queue). Zero
+    /// everywhere except inside one `Relax` call of the twin engine; ordering and equality are by
+    /// `prio + adj`. Atomic only because the sync flavours want `Sync` payloads.
+    adj: std::sync::atomic::AtomicI64,
 }
 
 impl NVal {
     pub fn new(prio: u32, id: u64) -> Self {
         note_new(Kind::Node, id);
-        NVal { prio, id }
+        NVal { prio, id, adj: std::sync::atomic::AtomicI64::new(0) }
+    }
+    /// the value the node is ordered by
+    pub fn eff(&self) -> i64 {
+        self.prio as i64 + self.adj.load(std::sync::atomic::Ordering::Relaxed)
+    }
+    pub fn set_eff(&self, v: i64) {
+        self.adj.store(v - self.prio as i64, std::sync::atomic::Ordering::Relaxed);
+    }
+}
+impl std::fmt::Debug for NVal {
+    fn fmt(&self, f: &mut std::fmt::Formatter<'_>) -> std::fmt::Result {
+        write!(f, "NVal {{ prio: {}, id: {} }}", self.prio, self.id)
     }
 }
 impl Clone for NVal {
     fn clone(&self) -> Self {
-        NVal::new(self.prio, self.id)
+        let c = NVal::new(self.prio, self.id);
+        c.set_eff(self.eff());
+        c
     }
 }
 impl Drop for NVal {
@@ -111,7 +129,7 @@ impl Drop for NVal {
 }
 impl PartialEq for NVal {
     fn eq(&self, o: &Self) -> bool {
-        self.prio == o.prio
+        self.eff() == o.eff()
     }
 }
 impl Eq for NVal {}
@@ -122,7 +140,7 @@ impl PartialOrd for NVal {
 }
 impl Ord for NVal {
     fn cmp(&self, o: &Self) -> std::cmp::Ordering {
-        self.prio.cmp(&o.prio)
+        self.eff().cmp(&o.eff())
     }
 }
 impl std::fmt::Display for NVal {
